@@ -76,7 +76,7 @@ class Contract:
     def __init__(self, key, params, returns=None, ghosts=None, requires=None, ensures=None, modifies=(),
                  allocates=False, raises=None, loops=None, decreases=None, pure=False, trusted=False, props=(),
                  locals_ty=None, call_ghosts=None, lemmas=None, is_property=False, note='', exc_modifies=None,
-                 inline=False, call_lemmas=None, term_rel=None, may_raise=(), no_merge=False, defs=None, param_defaults=None):
+                 inline=False, call_lemmas=None, term_rel=None, may_raise=(), no_merge=False, defs=None, param_defaults=None, solver_budget=None):
         """key 'module:qualname'.  params: ordered dict name -> T.  ghosts: name -> z3 sort (universally quantified).
         requires/ensures: c -> list[(name, formula)].  raises: {ExcName: (cond(c over pre-state) , ensures_exc(c) or None)}
         — the function raises ExcName iff cond.  modifies: array names the function may write (coarse frame; the fine
@@ -104,6 +104,7 @@ class Contract:
         self.call_lemmas = dict(call_lemmas or {})
         self.defs = defs or (lambda c: [])   # definitional axioms of spec function symbols (conservative extensions): assumed, never proved
         self.param_defaults = dict(param_defaults or {})   # declared default values of parameters (callers that omit the argument rely on them)
+        self.solver_budget = solver_budget   # seconds per solver attempt for this function's obligations (a known slow proof), else the tier default
         self.no_merge = no_merge             # keep paths separate at joins (one obligation per path: smaller queries)
         self.may_raise = tuple(may_raise)    # exception classes whose absence is NOT proved here (left to the bounded floor; listed in evidence)
         self.term_rel = term_rel     # (ctx at recursive call, ctx at entry) -> formula: well-founded decrease (T6)
